@@ -72,7 +72,7 @@ def run(spec, ctx):
     sentinel = lambda c: pm.sec_generic(rng, u, rng.choice([b"ID", b"PE", b"MR", b"XX", b"EI"]))
     for _ in range(spec["reps"]):
         for t in pm.SRC_TYPES:
-            for wc in range(1, 10):
+            for wc in range(0, 10):
                 c = rng.choice("OBM")
                 one([pm.gen_src(rng, u, True, c, srctype=t, wordcount=wc, reg=reg), sentinel(c)], c)
         for fl in range(256):          # every header-flag byte
